@@ -30,7 +30,7 @@ R_FULL = {
     "status": "test", "description": "d", "license": "MIT", "references": ["http://x"], "tags": ["attack.t1059", "cve.2020-1234"],
     "author": "a", "date": "2024-01-02", "modified": "2024/1/3",
     "logsource": {"category": "process_creation", "product": "windows", "service": "s", "definition": "def"},
-    "detection": {"sel": {"f1": ["a", "b"], "f2|contains": "x", "f5|re": "a.*b", "f6|cidr": "10.0.0.0/8"}, "flt": [{"f3": 1}, {"f4": None}], "kw": ["k1", "k2"], "condition": ["sel and not flt", "1 of kw*"]},
+    "detection": {"sel": {"f1": ["a", "b"], "f2|contains": "x", "f5|re": "a.*b", "f6|cidr": "10.0.0.0/8", "f7|wide|base64offset|contains": "pay", "f8|base64": "load"}, "flt": [{"f3": 1}, {"f4": None}], "kw": ["k1", "k2"], "condition": ["sel and not flt", "1 of kw*"]},
     "fields": ["f1"], "falsepositives": ["fp"], "level": "high", "scope": ["srv"], "custom": {"k": "v"},
 }
 
@@ -71,7 +71,7 @@ DOCS.update({k: ("collection", v) for k, v in COLLECTIONS.items()})
 DELETE = ("<delete>",)
 RENAME_UP, RENAME_CAP = ("<rename-key-upper>",), ("<rename-key-capitalized>",)  # the key of a map entry in another letter case
 REPL = [DELETE, RENAME_UP, RENAME_CAP, None, True, 0, -1, 1.5, "", "x", "1", [], ["x"], [1], [None], {}, {"k": "v"}, {1: 2}, datetime.date(2020, 1, 1), [[]],
-        "2024-13-45", "2023-02-30", "2021/2/30", "not-a-uuid", "5x", "1 of", "and", {"gte": "x"}, {"field": 1}, [{"id": 1}], "critical!", "attack.", ".t1059", ".", "a.b.c", "a{99999999999}", "(a", "10.0.0.1/8", 10**30, float("inf"), float("nan"), -0.0, b"bytes", datetime.datetime(2020, 1, 1, 12, 0)]
+        "2024-13-45", "2023-02-30", "2021/2/30", "not-a-uuid", "5x", "1 of", "and", {"gte": "x"}, {"field": 1}, [{"id": 1}], "critical!", "a\ud800b", "attack.", ".t1059", ".", "a.b.c", "a{99999999999}", "(a", "10.0.0.1/8", 10**30, float("inf"), float("nan"), -0.0, b"bytes", datetime.datetime(2020, 1, 1, 12, 0)]
 SMALL = ["rule_min", "corr_event_count", "filter_any"]
 
 
